@@ -278,7 +278,57 @@ def ceil_within_one_proof():
     return [("lemma-step", "ceil_within_one", _moddefs(-n, d), ceil_within_one(n, d))]
 
 
+def power_fn():
+    """ghost function group_size_power(k, j) = k ** j"""
+    return z3.Function("group_size_power", z3.IntSort(), z3.IntSort(), z3.IntSort())
+
+
+def power_def(k):
+    """definition of k ** j for k >= 1 by its recurrence (a definitional extension: the recurrence has a model, namely
+    exponentiation; positivity is part of it only under k >= 1, where it follows by induction)"""
+    pw = power_fn()
+    j = z3.Int("j!pw")
+    return z3.Implies(k >= 1, z3.And(pw(k, 0) == 1, z3.ForAll([j], z3.Implies(j >= 0, z3.And(pw(k, j + 1) == pw(k, j) * k, pw(k, j) >= 1)),
+                                                                 patterns=[pw(k, j)])))
+
+
+def power_mono(k):
+    """for k >= 1 the powers of k are non-decreasing in the exponent"""
+    pw = power_fn()
+    i, j = z3.Ints("i!pm j!pm")
+    return z3.Implies(k >= 1, z3.ForAll([i, j], z3.Implies(z3.And(0 <= i, i <= j), pw(k, i) <= pw(k, j)),
+                                        patterns=[z3.MultiPattern(pw(k, i), pw(k, j))]))
+
+
+def power_mono_proof():
+    pw = power_fn()
+    k, i, j = z3.Ints("k!l i!l j!l")
+    # induction on j from i, with the two instances of the recurrence that the step needs spelled out
+    inst = [pw(k, j + 1) == pw(k, j) * k, pw(k, j) >= 1]
+    return [
+        ("lemma-base", "power_mono", [k >= 1, 0 <= i], pw(k, i) <= pw(k, i)),
+        ("lemma-step", "power_mono", [k >= 1, 0 <= i, i <= j, pw(k, i) <= pw(k, j)] + inst, pw(k, i) <= pw(k, j + 1)),
+    ]
+
+
+def power_above(k, m, n):
+    """k >= 1, m >= 0 and k ** m >= n  =>  k ** d >= n for every d >= m"""
+    pw = power_fn()
+    d = z3.Int("d!pa")
+    return z3.Implies(z3.And(k >= 1, m >= 0, pw(k, m) >= n),
+                      z3.ForAll([d], z3.Implies(d >= m, pw(k, d) >= n), patterns=[pw(k, d)]))
+
+
+def power_above_proof():
+    pw = power_fn()
+    k, m, n, d = z3.Ints("k!l m!l n!l d!l")
+    # from monotonicity (proved above by induction), instantiated by the solver at (m, d)
+    return [("lemma-step", "power_above", [power_mono(k), k >= 1, m >= 0, pw(k, m) >= n, d >= m], pw(k, d) >= n)] + power_mono_proof()
+
+
 LEMMAS = {
+    "power_above": (power_above, power_above_proof),
+    "power_mono": (power_mono, power_mono_proof),
     "nested_ceil": (nested_ceil, nested_ceil_proof),
     "ceil_within_one": (ceil_within_one, ceil_within_one_proof),
     "strict_prefix": (strict_prefix, strict_prefix_proof),
